@@ -181,7 +181,19 @@ def madgwick(chk, prog):
                 if nx is None or nz is None:
                     return (None, "field component locals not found")
                 ov = {(owner.ref, nx): bx, (owner.ref, nz): bz}
-            it = Interp(prog, oracle=lambda c, i: True if c.op in (">",) else None, intercepts={"np.linalg.norm": norm_sym}, config={"override_locals": ov})
+            def orc(c, i):
+                # the opaque norms are those of non-null, finite samples: > 0 is true, <= 0 / == 0 / isnan are false
+                if c.op in (">", ">="):
+                    return True
+                if c.op in ("<=", "<", "=="):
+                    try:
+                        names = {P.atom(a_).name for a_ in (c.lhs - c.rhs).atoms()}
+                    except Exception:
+                        names = set()
+                    if names and all(n_.startswith("nrm") for n_ in names):
+                        return False
+                return None
+            it = Interp(prog, oracle=orc, intercepts={"np.linalg.norm": norm_sym}, config={"override_locals": ov})
             obj = it.make_obj(F + "madgwick.py::Madgwick", Dt=dt, gain=P.sym("gain"))
             args = [qs.copy(), w, a] + ([m] if marg else [])
             out = to_obj(it.run(f, args, {"dt": dt}, self_obj=obj))
